@@ -115,6 +115,9 @@ GShape == {Mk(0, 0, NhOf(pl), a[1], a[2], p, pl) :
 
 GCommon == {Mk(tc, flow, nh, V4a, V6a, Empty, Raw(1, <<170>>)) :
               tc \in {0, 1, 165, 255}, flow \in {0, 1, 703710, 1048575, 1048576, 16777215}, nh \in {0, 6, 17, 202, 255}}
+           \* hop-by-hop (43) / end-to-end (201) extension headers: sciparse has no model for them, the packet is a raw
+           \* packet whose payload starts with the extension header <<NextHdr, ExtLen, options>> (placeholder: PadN)
+           \cup {Mk(0, 7, nh, V4a, V6a, p, Raw(n, <<17, 1, 1, 2, 0, 0, 1, 0>>)) : nh \in {43, 201}, p \in {Empty, Std(<<2, 3>>, 1, 2)}, n \in {8, 16, 24}}
            \cup {[Mk(0, 5, 17, V4a, V4a, Empty, Udp(sp, dp, 2, <<1, 2>>)) EXCEPT !.dia = ia, !.sia = ia2] :
                    sp \in {0, 65535}, dp \in {0, 443}, ia \in {IA1, IA2}, ia2 \in {IA2, IA3}}
 
